@@ -615,19 +615,19 @@ class Performance(object):
         """
         unique_track_ids = sorted(
             set(
-                [(i, n.get("track", -1)) for i, pp in enumerate(self) for n in pp.notes]
+                [(i, n.get("track", 0)) for i, pp in enumerate(self) for n in pp.notes]
                 + [
-                    (i, c.get("track", -1))
+                    (i, c.get("track", 0))
                     for i, pp in enumerate(self)
                     for c in pp.controls
                 ]
                 + [
-                    (i, p.get("track", -1))
+                    (i, p.get("track", 0))
                     for i, pp in enumerate(self)
                     for p in pp.programs
                 ]
                 + [
-                    (i, m.get("track", -1))
+                    (i, m.get("track", 0))
                     for i, pp in enumerate(self)
                     for m in pp.key_signatures + pp.time_signatures + pp.meta_other
                 ]
@@ -638,18 +638,18 @@ class Performance(object):
 
         for i, ppart in enumerate(self):
             for note in ppart.notes:
-                note["track"] = track_map[(i, note.get("track", -1))]
+                note["track"] = track_map[(i, note.get("track", 0))]
 
             for control in ppart.controls:
-                control["track"] = track_map[(i, control.get("track", -1))]
+                control["track"] = track_map[(i, control.get("track", 0))]
 
             for program in ppart.programs:
-                program["track"] = track_map[(i, program.get("track", -1))]
+                program["track"] = track_map[(i, program.get("track", 0))]
 
             for meta in (
                 ppart.key_signatures + ppart.time_signatures + ppart.meta_other
             ):
-                meta["track"] = track_map[(i, meta.get("track", -1))]
+                meta["track"] = track_map[(i, meta.get("track", 0))]
 
     def __getitem__(self, index: int) -> PerformedPart:
         """Get `Part in the score by index"""
